@@ -64,9 +64,9 @@ def main():
     p = ROOT + "/DESIGN.md"
     s = open(p).read()
     for name, fn in BLOCKS.items():
-        pat = re.compile(r"(<!-- BEGIN:%s -->\n).*?(\n<!-- END:%s -->)" % (name, name), re.S)
+        pat = re.compile(r"(<!-- BEGIN:%s -->\n).*?(<!-- END:%s -->)" % (name, name), re.S)
         if pat.search(s):
-            s = pat.sub(lambda mm: mm.group(1) + fn() + mm.group(2), s)
+            s = pat.sub(lambda mm: mm.group(1) + fn() + "\n" + mm.group(2), s)
     open(p, "w").write(s)
 
 
